@@ -323,6 +323,10 @@ def main(argv=None):
             else:
                 n_ob += 1
                 undecided.append({'obligation': rec['name'], 'reason': 'solver unknown (%s)' % ','.join(rec['tried'])})
+        if a.v:
+            for rec in r['obligations']:
+                if rec['time'] > 3:
+                    print("   slow %.1fs %s %s %s" % (rec['time'], rec['status'], rec['backend'], rec['name']))
         per_contract.append({'contract': ct.ident(), 'level': ct.level, 'paths': r.get('paths'), 'obligations': len(r['obligations']),
                              'discharged': cdis, 'explore_s': r.get('explore_s'), 'wall_s': r.get('wall'),
                              'reachable_paths': rp, 'warn_calls_dropped': r.get('warn_calls', 0)})
@@ -345,6 +349,24 @@ def main(argv=None):
             else:
                 violations.append({'obligation': rec['name'], 'replay': path, 'reproduced': bool(rr.get('reproduced')),
                                    'meta': rec.get('meta'), 'backend': rec['backend'], 'detail': rr})
+    # recorded known findings with a concrete failing input: replay that input on the real code
+    for i, k in enumerate(known.get('findings', [])):
+        if k['property'] != prop or 'inputs' not in k or a.only:
+            continue
+        d = os.path.join(OUT, 'replay', prop)
+        os.makedirs(d, exist_ok=True)
+        path = os.path.join(d, 'known_finding_%d.json' % i)
+        with open(path, 'w') as fh:
+            json.dump({'property': prop, 'obligation': k['obligation'], 'clause': k['clause'], 'kind': 'bounded',
+                       'contract_module': k['contract']['module'], 'contract_fn': k['contract']['fn'],
+                       'params': k['contract']['params'], 'inputs': k['inputs'], 'repo': a.repo,
+                       'solver': 'recorded input of a known finding'}, fh, indent=1)
+        try:
+            rr = run_replay(path, a.repo)
+        except Exception as e:
+            rr = {'reproduced': False, 'error': str(e)}
+        if rr.get('reproduced'):
+            known_hits.append({'finding': k, 'obligation': k['obligation'], 'replay': path, 'reproduced': True, 'recorded_input': True})
     # bounded companions (never counted as proved)
     bounded = None
     if not a.no_bounded and not errors:
